@@ -1,8 +1,8 @@
 (* Extraction of the C07/C08 evaluator models: ExtrOcamlBasic only; nat, positive, N, Z, byte
    stay extracted inductives. *)
 From Coq Require Extraction ExtrOcamlBasic.
-From Falco Require Import Base.Res Base.Bytes Gen.EvalConst Model.Float Model.Acl Model.Val Model.Assign Model.Oper Model.Exec Model.EvalInclude Model.Concat Model.Eval Model.CallTree.
+From Falco Require Import Base.Res Base.Bytes Gen.EvalConst Model.Float Model.Acl Model.Val Model.Assign Model.Oper Model.Exec Model.EvalInclude Model.Concat Model.Eval Model.CallTree Model.Builtins Model.ReGroup.
 Extraction Language OCaml.
 Extraction "eval_model.ml" impl_match spec_match old_match
   n2b b2n sf_of_bits bits_of_sf local_set assign oper create
-  exec_sub serve resolve maxCallStackExceedCount MaxVarnishRestarts exec_block concat_series check_call_tree MaxSubroutineCallTree.
+  exec_sub serve resolve maxCallStackExceedCount MaxVarnishRestarts exec_block concat_series check_call_tree MaxSubroutineCallTree strrep strpad randomstr MaxRequestWorkspaceSize trace read.
